@@ -545,6 +545,32 @@ def check_objects(sh, ns, res):
             res.outcomes.add('not-equal')
 
 
+def check_exclude_pairs(res):
+    """Matchers that differ only in the text of their exclusions (same number of them) accept different names and are
+    therefore never equal; `==` and `!=` never agree with each other."""
+    for mode, mod in (('fn', F), ('glob', G)):
+        for inc in ('*', ['a*', 'b*']):
+            for e1, e2, probe in (('a*', 'b*', 'ab'), (['x', 'a'], ['x', 'ab'], 'a'), ('?', '??', 'a')):
+                for how in ('exclude=', 'inline'):
+                    res.n['evaluations'] += 1
+                    res.n['distinct_nontrivial'] += 1
+                    if how == 'exclude=':
+                        m1, m2 = mod.compile(inc, exclude=e1), mod.compile(inc, exclude=e2)
+                    else:
+                        l1 = (inc if isinstance(inc, list) else [inc]) + ['!' + x for x in (e1 if isinstance(e1, list) else [e1])]
+                        l2 = (inc if isinstance(inc, list) else [inc]) + ['!' + x for x in (e2 if isinstance(e2, list) else [e2])]
+                        m1, m2 = mod.compile(l1, flags=mod.NEGATE), mod.compile(l2, flags=mod.NEGATE)
+                    differ = bool(m1.match(probe)) != bool(m2.match(probe))
+                    eq, ne = (m1 == m2), (m1 != m2)
+                    ok = differ and not eq and ne and (m1._matcher == m2._matcher) is False and (m1._matcher != m2._matcher) is True
+                    res.outcomes.add('exclusions-distinguish' if ok else 'exclusions-confused')
+                    if not ok:
+                        res.add_violation(ID, run.viol('equal-objects-differ', {'configs': [[mode, run.jsonable(inc), how, run.jsonable(e1)],
+                                                                                            [mode, run.jsonable(inc), how, run.jsonable(e2)]],
+                                                                               'layer': 'exclude-pairs'},
+                                                       'not equal, != true', {'eq': eq, 'ne': ne, 'accept_differently': differ}))
+
+
 # ---------------------------------------------------------------- planning
 
 LINE_SUB = [0, 1, 3, 8, 15]           # cheap pure-matching calls: every line-level preemption
@@ -610,6 +636,7 @@ def run_chunk(chunk):
             check_objects(chunk[1], chunk[2], res)
             res.samples.append({'config': list(CONFIGS[3])})
         elif kind == 'residue':
+            check_exclude_pairs(res)
             check_residual_state(res)
             res.samples.append({'residual_state': list(run.jsonable(list(DIRFD_TUPLES[0])))})
         else:
@@ -653,6 +680,10 @@ def replay(v):
             fresh_interpreter_values(r, clean_values())
             return {'violates': bool(r.viol), 'observed': r.viol[0]['observed'] if r.viol else 'ok'}
         r = run.ChunkResult()
+        if inp.get('layer') == 'exclude-pairs':
+            check_exclude_pairs(r)
+            hit = [x for x in r.viol if x['input'] == run.jsonable(inp)]
+            return {'violates': bool(hit), 'observed': hit[0]['observed'] if hit else 'ok'}
         check_objects(0, 1, r)
         hit = [x for x in r.viol if x['kind'] == k and x['input'] == run.jsonable(inp)]
         return {'violates': bool(hit), 'observed': hit[0]['observed'] if hit else 'ok'}
